@@ -57,3 +57,25 @@ package kube
 //@   call Update#0: assert arg_endpoints == newEndpoints && oldEndpoints.ResourceVersion != newEndpoints.ResourceVersion
 //@   ghost at return#2: same = (oldEndpoints.ResourceVersion == newEndpoints.ResourceVersion)
 //@   call return#2: assert oldEndpoints.ResourceVersion == newEndpoints.ResourceVersion
+
+// add and delete events are applied to every endpoints object, whatever else is known (initial-list flag, current set): the
+// only way out before the addresses are processed is an object of the wrong type
+// (that every address of the object is visited is not proved: nested range over k8s structs)
+//@ func (h *EventHandler) OnAdd
+//@   property C13
+//@   flag callbacks_noheap
+//@   requires h != nil && h.endpoints != nil && h.update != nil
+//@   call return#*: assert !ok
+//@   loop 0: modifies mapof(h.endpoints), changed
+//@   loop 0: invariant h.endpoints != nil
+//@   loop 1: modifies mapof(h.endpoints), changed
+//@   loop 1: invariant h.endpoints != nil
+//@ func (h *EventHandler) OnDelete
+//@   property C13
+//@   flag callbacks_noheap
+//@   requires h != nil && h.endpoints != nil && h.update != nil
+//@   call return#*: assert !ok
+//@   loop 0: modifies mapof(h.endpoints), changed
+//@   loop 0: invariant h.endpoints != nil
+//@   loop 1: modifies mapof(h.endpoints), changed
+//@   loop 1: invariant h.endpoints != nil
